@@ -8,6 +8,7 @@ alias tag `t` (0 int / str char / byte, 1 float, 2 bool).  Python `==`/`hash` on
 class `cls c` (`0` for None, `v + 1` otherwise).  Lists are comma separated, `-` = empty.
 
   chunked <size> <count|-> <fill|-> <xs>
+  chunkedk <input kind> <size> <count|-> <fill|-> <xs>     (answers `ok <chunk type> <chunks>`)
   windowed <size> <fill|-> <xs>          pairwise <end|-> <xs>
   split <sep> <maxsplit|-> <xs>          sep: n | v<code> | t<codes> (a str separator) | s<codes> | c<codes>
                                          | k<kind>:<codes> (an object of that kind holding the items)
@@ -141,6 +142,13 @@ def handle (line : String) : String :=
   | ["chunked", size, count, fill, xs] =>
     match param? size, optParam? count, optNat? fill, natList? xs with
     | some size, some count, some fill, some xs => showRes (chunkedP size count fill xs)
+    | _, _, _, _ => "bad-op"
+  | ["chunkedk", kind, size, count, fill, xs] =>
+    match param? size, optParam? count, optNat? fill, natList? xs with
+    | some size, some count, some fill, some xs =>
+      match chunkedK (SrcKind.ofName kind) size count fill xs with
+      | .ok (ck, l) => "ok " ++ ck.name ++ " " ++ showLL l
+      | .error e => showErr e
     | _, _, _, _ => "bad-op"
   | ["windowed", size, fill, xs] =>
     match param? size, optNat? fill, natList? xs with
